@@ -89,12 +89,24 @@ def check_helpers(ctx, builders_only=False):
             continue
         fallible = h["fallible"]
         produced = ("tryok", call_t) if fallible else call_t
+        # `match f(..) { Ok(v) => .., Err(e) => Err(e) }` is `f(..)?` spelled out (E is the caller's own type parameter)
+        OKP = ("field", ("variant", call_t, "Ok"), "0")
+        ERRP = ("field", ("variant", call_t, "Err"), "0")
+
+        def same_produced(v, want):
+            if v == want:
+                return True
+            if fallible and want == produced:
+                return v == OKP
+            if fallible and want[0] == "aggr" and v[0] == "aggr" and v[:3] == want[:3] and len(v[3]) == 1:
+                return v[3][0][1] in (produced, OKP)
+            return False
         problems = []
         S0 = ("field", ("param", 0), "0")
         effs = pv.effects()
         if h["kind"] == "create-sig":
             st = [e for e in effs if e["kind"] == "assign"]
-            ok_store = len(st) == 1 and st[0]["place"] == ("field", ("param", 1), "signature") and st[0]["value"] == produced
+            ok_store = len(st) == 1 and st[0]["place"] == ("field", ("param", 1), "signature") and same_produced(st[0]["value"], produced)
             if not ok_store:
                 problems.append("the closure result is not stored into sig.signature: %s" % [(show(e["place"]), show(e["value"])[:60]) for e in st])
             adds = [e for e in effs if e["kind"] == "call" and e["callee"] == "alloc::vec::Vec::<T, A>::push"
@@ -111,7 +123,7 @@ def check_helpers(ctx, builders_only=False):
             want_val = produced if fld != "ciphertext" else ("aggr", "core::option::Option", "Some", (("0", produced),))
             st = [e for e in effs if e["kind"] == "assign" and e["place"] == ("field", S0, fld)]
             rest = [e for e in effs if e not in st]
-            if len(st) != 1 or st[0]["value"] != want_val:
+            if len(st) != 1 or not same_produced(st[0]["value"], want_val):
                 problems.append("the closure result is not stored in self.%s: %s" % (fld, [(show(e["place"]), show(e["value"])[:80]) for e in effs if e["kind"] == "assign"]))
             if rest:
                 problems.append("other effects: %s" % [(e.get("callee") or "assign", show(e["place"])[:50]) for e in rest])
@@ -122,8 +134,9 @@ def check_helpers(ctx, builders_only=False):
                "%s stores the caller's function result in `%s`, the field the verify/decrypt helper hands over" % (key, h["stores"]),
                where=f.where(bb), detail={"problems": problems})
         if fallible:
-            props = [o for o in outs if o["kind"] == "propagate"]
-            ok = len(props) == 1 and props[0]["inner"] == call_t and not [o for o in outs if o["kind"] == "err"]
+            props = [o for o in outs if o["kind"] == "propagate" and o["inner"] == call_t] + \
+                [o for o in outs if o["kind"] == "err" and o["inner"] == ERRP]
+            ok = len(props) == 1 and len([o for o in outs if o["kind"] in ("err", "propagate")]) == 1
             ctx.ob("R-4", "error-propagated:%s" % key, ok, "%s returns the creator function's error and no message" % key, where=f.where(bb),
                    detail={"outcomes": [(o["kind"], show(o["term"])[:80]) for o in outs]})
 
